@@ -23,6 +23,7 @@ import (
 	"google.golang.org/grpc/metadata"
 	"google.golang.org/grpc/status"
 	"google.golang.org/protobuf/proto"
+	"google.golang.org/protobuf/reflect/protoreflect"
 	"google.golang.org/protobuf/types/dynamicpb"
 	"larking.io/larking"
 	"pgregory.net/rapid"
@@ -53,14 +54,16 @@ type ReqHdr struct {
 }
 
 type Case struct {
-	Transport   string   `json:"transport"` // grpc | grpcweb | http | grpc-real
-	Req         []ReqHdr `json:"req"`
-	Header      []KV     `json:"header"`
-	Trailer     []KV     `json:"trailer"`
-	SendHeader  bool     `json:"send_header"`   // SendHeader instead of SetHeader
-	TrailerLate bool     `json:"trailer_late"`  // SetTrailer after the reply was produced (streaming methods only matter; here: before return)
-	Fail        bool     `json:"fail"`
-	Split       bool     `json:"split"` // the handler sets its metadata one value per SetHeader/SetTrailer call (calls accumulate)
+	Transport    string   `json:"transport"` // grpc | grpcweb | http | grpc-real
+	Req          []ReqHdr `json:"req"`
+	Header       []KV     `json:"header"`
+	Trailer      []KV     `json:"trailer"`
+	SendHeader   bool     `json:"send_header"`  // SendHeader instead of SetHeader
+	TrailerLate  bool     `json:"trailer_late"` // SetTrailer after the reply was produced (streaming methods only matter; here: before return)
+	Fail         bool     `json:"fail"`
+	ServerStream bool     `json:"server_stream"` // the method is server-streaming and sends Replies messages (false: unary)
+	Replies      int      `json:"replies"`
+	Split        bool     `json:"split"` // the handler sets its metadata one value per SetHeader/SetTrailer call (calls accumulate)
 }
 
 var (
@@ -68,10 +71,19 @@ var (
 	world     *dyn.World
 )
 
+// nreplies is -1 for the unary method, else the number of messages the server-streaming handler sends.
+func (c Case) nreplies() int {
+	if !c.ServerStream {
+		return -1
+	}
+	return c.Replies
+}
+
 func theWorld() *dyn.World {
 	worldOnce.Do(func() {
 		world = uni.WorldWith(dyn.Svc("C14",
 			dyn.MethodSpec{Name: "Do", In: ".un.All", Out: ".un.All", Rule: &annotations.HttpRule{Pattern: &annotations.HttpRule_Post{Post: "/c14/do"}, Body: "*"}},
+			dyn.MethodSpec{Name: "DoS", In: ".un.All", Out: ".un.All", ServerStream: true, Rule: &annotations.HttpRule{Pattern: &annotations.HttpRule_Post{Post: "/c14/dos"}, Body: "*"}},
 		))
 	})
 	return world
@@ -146,7 +158,39 @@ func newMux(c Case, s *seen) *larking.Mux {
 		}
 		return dynamicpb.NewMessage(req.Descriptor()), nil
 	}
-	if err := mux.VerifRegisterService(w.ServiceDesc("un.C14", unary, nil), nil); err != nil {
+	stream := func(full string, in, out protoreflect.MessageDescriptor, ss grpc.ServerStream) error {
+		if err := ss.RecvMsg(dynamicpb.NewMessage(in)); err != nil {
+			return err
+		}
+		s.ran = true
+		s.md, _ = metadata.FromIncomingContext(ss.Context())
+		setTrailer := func() { inCalls(c.Split, c.Trailer, func(md metadata.MD) { ss.SetTrailer(md) }) }
+		if !c.TrailerLate {
+			setTrailer()
+		}
+		switch {
+		case c.SendHeader && !c.Split:
+			ss.SendHeader(toMD(c.Header))
+		case c.SendHeader:
+			inCalls(true, c.Header, func(md metadata.MD) { ss.SetHeader(md) })
+			ss.SendHeader(metadata.MD{})
+		default:
+			inCalls(c.Split, c.Header, func(md metadata.MD) { ss.SetHeader(md) })
+		}
+		for i := 0; i < c.nreplies(); i++ {
+			if err := ss.SendMsg(dynamicpb.NewMessage(out)); err != nil {
+				return err
+			}
+		}
+		if c.TrailerLate {
+			setTrailer()
+		}
+		if c.Fail {
+			return status.Error(codes.FailedPrecondition, failMsg)
+		}
+		return nil
+	}
+	if err := mux.VerifRegisterService(w.ServiceDesc("un.C14", unary, stream), nil); err != nil {
 		panic(err)
 	}
 	return mux
@@ -212,15 +256,19 @@ func Check(c Case) []evid.Violation {
 	}
 	var res drive.Result
 	frame := drive.GRPCFrame(nil, false)
+	method, route := "/un.C14/Do", "/c14/do"
+	if c.nreplies() >= 0 {
+		method, route = "/un.C14/DoS", "/c14/dos"
+	}
 	switch c.Transport {
 	case "grpc":
-		res = drive.Serve(mux, drive.GRPCRequest("/un.C14/Do", hdr, bytes.NewReader(frame), "application/grpc"))
+		res = drive.Serve(mux, drive.GRPCRequest(method, hdr, bytes.NewReader(frame), "application/grpc"))
 	case "grpcweb":
 		hdr.Set("Content-Type", "application/grpc-web+proto")
-		res = drive.Serve(mux, drive.Request("POST", "/un.C14/Do", "", hdr, bytes.NewReader(frame), -1))
+		res = drive.Serve(mux, drive.Request("POST", method, "", hdr, bytes.NewReader(frame), -1))
 	case "http":
 		hdr.Set("Content-Type", "application/json")
-		res = drive.Serve(mux, drive.Request("POST", "/c14/do", "", hdr, bytes.NewReader([]byte("{}")), 2))
+		res = drive.Serve(mux, drive.Request("POST", route, "", hdr, bytes.NewReader([]byte("{}")), 2))
 	}
 	if res.Panic != nil {
 		return fail("panic", res.PanicSig(), "panic: %v", res.Panic)
@@ -346,13 +394,15 @@ func Check(c Case) []evid.Violation {
 		}
 	case "http":
 		wantStatus := 200
-		if c.Fail {
-			wantStatus = 400
+		if c.Fail && c.nreplies() <= 0 {
+			wantStatus = 400 // once a reply was sent the status line can not change any more
 		}
 		if obs.status != wantStatus {
 			return fail("reserved", "http-status", "HTTP status %d want %d", obs.status, wantStatus)
 		}
-		if got := first(obs.header["content-type"]); got != "application/json" || len(obs.header["content-type"]) != 1 {
+		if c.nreplies() == 0 && !c.Fail && len(obs.body) == 0 && len(obs.header["content-type"]) == 0 {
+			// an empty stream has no body and therefore needs no content type
+		} else if got := first(obs.header["content-type"]); got != "application/json" || len(obs.header["content-type"]) != 1 {
 			return fail("reserved", "forged-content-type", "content-type %q want application/json", obs.header["content-type"])
 		}
 	}
@@ -537,6 +587,11 @@ func genCase(t *rapid.T, transports []string) Case {
 		c.Req = append(c.Req, h)
 	}
 	c.Fail = rapid.Bool().Draw(t, "fail")
+	if k := rapid.SampledFrom([]int{-1, -1, 0, 1, 2}).Draw(t, "stream"); k >= 0 && c.Transport != "grpc-real" {
+		c.ServerStream, c.Replies = true, k
+	}
+	// a response without any message is trailers-only as well
+	trailersOnly := c.Fail && c.nreplies() <= 0 || c.nreplies() == 0
 	c.Header = genKVs(t, "h")
 	// In a trailers-only response (failing unary RPC) there is a single header
 	// block in which equal keys necessarily merge, so header and trailer keys
@@ -547,11 +602,11 @@ func genCase(t *rapid.T, transports []string) Case {
 		hk[kv.Key] = true
 	}
 	for _, kv := range genKVs(t, "t") {
-		if !c.Fail || !hk[kv.Key] || reserved[kv.Key] {
+		if !trailersOnly || !hk[kv.Key] || reserved[kv.Key] {
 			c.Trailer = append(c.Trailer, kv)
 		}
 	}
-	if !c.Fail && len(c.Header) > 0 && rapid.IntRange(0, 2).Draw(t, "reuseKey") == 0 {
+	if !trailersOnly && len(c.Header) > 0 && rapid.IntRange(0, 2).Draw(t, "reuseKey") == 0 {
 		src := c.Header[rapid.IntRange(0, len(c.Header)-1).Draw(t, "reuseIdx")]
 		if !reserved[src.Key] {
 			dup := false
@@ -612,7 +667,7 @@ func record(c Case) {
 	}
 	key := ""
 	if nontriv {
-		key = fmt.Sprintf("%s|%v|%v|%v|%v|%v|%v|%v", c.Transport, c.Req, c.Header, c.Trailer, c.SendHeader, c.TrailerLate, c.Fail, c.Split)
+		key = fmt.Sprintf("%s|%v|%v|%v|%v|%v|%v|%v|%d", c.Transport, c.Req, c.Header, c.Trailer, c.SendHeader, c.TrailerLate, c.Fail, c.Split, c.nreplies())
 	}
 	evid.Eval(key, cl...)
 }
